@@ -191,3 +191,7 @@ func (r *VerifRig) Close(j *VerifJob) {
 func (r *VerifRig) Abandon(j *VerifJob) {
 	_ = j.job.file.Close()
 }
+
+// Maintain runs one idle maintenance round for the job (the real maintenanceJob: stat, and for an idle file at EOF
+// close + reopen + seek back to the saved position).
+func (r *VerifRig) Maintain(j *VerifJob) int { return r.jp.maintenanceJob(j.job) }
